@@ -1,0 +1,259 @@
+//go:build verif
+
+// A second cheating prover for the external verification harness (/verif, property C17); see verif_forge.go.
+// Compiled only with the build tag verif; nothing in the library refers to it.
+package keyproof
+
+import (
+	"strings"
+
+	"github.com/privacybydesign/gabi/big"
+	"github.com/privacybydesign/gabi/internal/common"
+	"github.com/privacybydesign/gabi/zkproof"
+)
+
+// answers Secret(name) with a value of the prover's choice
+type kpOverride struct {
+	name string
+	val  *big.Int
+}
+
+func (o *kpOverride) Secret(name string) *big.Int {
+	if name == o.name {
+		return o.val
+	}
+	return nil
+}
+func (o *kpOverride) Randomizer(string) *big.Int { return nil }
+
+// --- the cheating part -------------------------------------------------------------------------------------------
+
+// expProofStructure.commitmentsFromSecrets (sequential), with two changes: the intermediate results follow the
+// multipliers muls[i] instead of base^(2^i), and (if free) each step is given muls[i] as the secret named like the
+// base power commitment. Everything else (bits of the true exponent, true base powers and their squaring chain,
+// range proofs) is as the honest prover does it. Returns the final value of the chain as well.
+func kpForgedExpCommit(s *expProofStructure, g zkproof.Group, list []*big.Int, bases zkproof.BaseLookup, secretdata zkproof.SecretLookup, muls []*big.Int, free bool) ([]*big.Int, expProofCommit, *big.Int) {
+	var commit expProofCommit
+	exponent, mod, base := secretdata.Secret(s.exponent), secretdata.Secret(s.mod), secretdata.Secret(s.base)
+
+	BitEqHider := new(big.Int).Neg(secretdata.Secret(strings.Join([]string{s.exponent, "hider"}, "_")))
+	commit.expBits = make([]pedersenCommit, s.bitlen)
+	for i := uint(0); i < s.bitlen; i++ {
+		list, commit.expBits[i] = s.expBits[i].commitmentsFromSecrets(g, list, big.NewInt(int64(exponent.Bit(int(i)))))
+		BitEqHider.Add(BitEqHider, new(big.Int).Lsh(commit.expBits[i].hider.secretv, i))
+	}
+	BitEqHider.Mod(BitEqHider, g.Order)
+	commit.expBitEqHider = newSecret(g, strings.Join([]string{s.myname, "biteqhider"}, "_"), BitEqHider)
+
+	commit.basePows = make([]pedersenCommit, s.bitlen)
+	for i := uint(0); i < s.bitlen; i++ {
+		list, commit.basePows[i] = s.basePows[i].commitmentsFromSecrets(g, list,
+			new(big.Int).Exp(base, new(big.Int).Lsh(big.NewInt(1), i), mod)) // honest
+	}
+	list, commit.start = s.start.commitmentsFromSecrets(g, list, big.NewInt(1))
+
+	// intermediate results: products of the multipliers of the prover's choice
+	cur := big.NewInt(1)
+	commit.interRess = make([]pedersenCommit, s.bitlen-1)
+	for i := uint(0); i < s.bitlen; i++ {
+		if exponent.Bit(int(i)) == 1 {
+			cur = new(big.Int).Mod(new(big.Int).Mul(cur, muls[i]), mod)
+			if cur.Cmp(new(big.Int).Sub(mod, big.NewInt(1))) == 0 {
+				cur = big.NewInt(-1)
+			}
+		}
+		if i < s.bitlen-1 {
+			list, commit.interRess[i] = s.interRess[i].commitmentsFromSecrets(g, list, cur)
+		}
+	}
+
+	var baseList []zkproof.BaseLookup
+	var secretList []zkproof.SecretLookup
+	for i := range commit.expBits {
+		baseList, secretList = append(baseList, &commit.expBits[i]), append(secretList, &commit.expBits[i])
+	}
+	for i := range commit.basePows {
+		baseList, secretList = append(baseList, &commit.basePows[i]), append(secretList, &commit.basePows[i])
+	}
+	baseList, secretList = append(baseList, &commit.start), append(secretList, &commit.start)
+	for i := range commit.interRess {
+		baseList, secretList = append(baseList, &commit.interRess[i]), append(secretList, &commit.interRess[i])
+	}
+	baseList = append(baseList, bases)
+	secretList = append(secretList, secretdata, &commit.expBitEqHider)
+	innerBases := zkproof.NewBaseMerge(baseList...)
+	innerSecrets := zkproof.NewSecretMerge(secretList...)
+
+	list = s.expBitEq.CommitmentsFromSecrets(g, list, &innerBases, &innerSecrets)
+	commit.basePowRangeCommit = make([]rangeCommit, len(s.basePowRange))
+	for i := range s.basePowRange {
+		list, commit.basePowRangeCommit[i] = s.basePowRange[i].commitmentsFromSecrets(g, list, &innerBases, &innerSecrets)
+	}
+	commit.basePowRelCommit = make([]multiplicationProofCommit, len(s.basePowRels))
+	for i := range s.basePowRels {
+		list, commit.basePowRelCommit[i] = s.basePowRels[i].commitmentsFromSecrets(g, list, &innerBases, &innerSecrets)
+	}
+	list = s.startRep.CommitmentsFromSecrets(g, list, &innerBases, &innerSecrets)
+	commit.interResRangeCommit = make([]rangeCommit, len(s.interResRange))
+	for i := range s.interResRange {
+		list, commit.interResRangeCommit[i] = s.interResRange[i].commitmentsFromSecrets(g, list, &innerBases, &innerSecrets)
+	}
+	commit.interStepsCommit = make([]expStepCommit, len(s.interSteps))
+	for i := range s.interSteps {
+		var stepSecrets zkproof.SecretLookup = &innerSecrets
+		if free {
+			// THE deviation: expStepB takes its multiplier from a secret named like the base power; hand it another value
+			m := zkproof.NewSecretMerge(&kpOverride{s.interSteps[i].stepb.mulname, muls[i]}, &innerSecrets)
+			stepSecrets = &m
+		}
+		list, commit.interStepsCommit[i] = s.interSteps[i].commitmentsFromSecrets(g, list, &innerBases, stepSecrets)
+	}
+	return list, commit, cur
+}
+
+// primeProofStructure.commitmentsFromSecrets for a number that need not be prime: a is derived from the hash as
+// prescribed, aneg is any number; the results are claimed to be +1 and -1; the two exponentiation chains are forged.
+func kpForgedPrimeCommit(s *primeProofStructure, g zkproof.Group, list []*big.Int, bases zkproof.BaseLookup, secretdata zkproof.SecretLookup, free bool) ([]*big.Int, primeProofCommit) {
+	var commit primeProofCommit
+	pp := secretdata.Secret(s.primeName)
+	one := big.NewInt(1)
+
+	list, commit.prea = s.prea.commitmentsFromSecrets(g, list, common.FastRandomBigInt(pp))
+	aAdd := common.GetHashNumber(commit.prea.commit, nil, 0, s.bitlen)
+	d, a := new(big.Int).DivMod(new(big.Int).Add(commit.prea.secretv.secretv, aAdd), pp, new(big.Int))
+	if a.Sign() == 0 {
+		panic("a = 0")
+	}
+	list, commit.a = s.a.commitmentsFromSecrets(g, list, a)
+	commit.preaMod = newSecret(g, strings.Join([]string{s.myname, "preamod"}, "_"), d)
+	commit.preaHider = newSecret(g, strings.Join([]string{s.myname, "preahider"}, "_"),
+		new(big.Int).Mod(new(big.Int).Sub(commit.prea.hider.secretv,
+			new(big.Int).Add(commit.a.hider.secretv,
+				new(big.Int).Mul(d, secretdata.Secret(strings.Join([]string{s.primeName, "hider"}, "_"))))), g.Order))
+
+	aneg := new(big.Int).Add(common.FastRandomBigInt(new(big.Int).Sub(pp, big.NewInt(2))), one) // anything
+	list, commit.aneg = s.aneg.commitmentsFromSecrets(g, list, aneg)
+
+	list, commit.aRes = s.aRes.commitmentsFromSecrets(g, list, big.NewInt(1))        // claimed a^((p'-1)/2) = 1
+	list, commit.anegRes = s.anegRes.commitmentsFromSecrets(g, list, big.NewInt(-1)) // claimed aneg^((p'-1)/2) = -1
+	commit.aInvalid = fakeProof(g)
+	commit.aInvalidChallenge = common.FastRandomBigInt(g.Order)
+	commit.aValid = newSecret(g, strings.Join([]string{s.myname, "aresplus1hider"}, "_"), commit.aRes.hider.secretv)
+	commit.aInvalid.setName(strings.Join([]string{s.myname, "aresmin1hider"}, "_"))
+	commit.aPositive = true
+
+	halfp := new(big.Int).Rsh(pp, 1)
+	list, commit.halfP = s.halfP.commitmentsFromSecrets(g, list, halfp)
+
+	agenproof := zkproof.RepresentationProofStructure{
+		Lhs: []zkproof.LhsContribution{
+			{Base: commit.prea.name, Power: big.NewInt(1)},
+			{Base: "g", Power: new(big.Int).Mod(aAdd, g.Order)},
+			{Base: commit.a.name, Power: big.NewInt(-1)},
+		},
+		Rhs: []zkproof.RhsContribution{
+			{Base: s.primeName, Secret: commit.preaMod.name, Power: 1},
+			{Base: "h", Secret: commit.preaHider.name, Power: 1},
+		},
+	}
+	agenrange := rangeProofStructure{agenproof, commit.preaMod.name, 0, s.bitlen}
+
+	innerBases := zkproof.NewBaseMerge(&commit.prea, &commit.a, &commit.aneg, &commit.aRes, &commit.anegRes, &commit.halfP, bases)
+	secrets := zkproof.NewSecretMerge(&commit.preaMod, &commit.preaHider, &commit.aValid, &commit.prea, &commit.a, &commit.aneg,
+		&commit.aRes, &commit.anegRes, &commit.halfP, secretdata)
+
+	list = s.halfPRep.CommitmentsFromSecrets(g, list, &innerBases, &secrets)
+	list, commit.preaRangeCommit = s.preaRange.commitmentsFromSecrets(g, list, &innerBases, &secrets)
+	list, commit.aRangeCommit = s.aRange.commitmentsFromSecrets(g, list, &innerBases, &secrets)
+	list, commit.anegRangeCommit = s.anegRange.commitmentsFromSecrets(g, list, &innerBases, &secrets)
+	list = agenproof.CommitmentsFromSecrets(g, list, &innerBases, &secrets)
+	list, commit.preaModRangeCommit = agenrange.commitmentsFromSecrets(g, list, &innerBases, &secrets)
+	list = s.anegResRep.CommitmentsFromSecrets(g, list, &innerBases, &secrets)
+	list = s.aPlus1ResRep.CommitmentsFromSecrets(g, list, &innerBases, &secrets)
+	list = s.aMin1ResRep.CommitmentsFromProof(g, list, commit.aInvalidChallenge, &innerBases, &commit.aInvalid)
+
+	// multipliers: all 1 for the a chain (result 1); p'-1 at the lowest set bit of (p'-1)/2 and 1 elsewhere for aneg (result -1)
+	mulsA := make([]*big.Int, s.bitlen)
+	mulsN := make([]*big.Int, s.bitlen)
+	first := true
+	for i := range mulsA {
+		mulsA[i], mulsN[i] = big.NewInt(1), big.NewInt(1)
+		if first && halfp.Bit(i) == 1 {
+			mulsN[i] = new(big.Int).Sub(pp, one)
+			first = false
+		}
+	}
+	var ra, rn *big.Int
+	list, commit.aExpCommit, ra = kpForgedExpCommit(&s.aExp, g, list, &innerBases, &secrets, mulsA, free)
+	list, commit.anegExpCommit, rn = kpForgedExpCommit(&s.anegExp, g, list, &innerBases, &secrets, mulsN, free)
+	if ra.Cmp(big.NewInt(1)) != 0 || rn.Cmp(big.NewInt(-1)) != 0 {
+		panic("chains do not end in +1 / -1")
+	}
+	return list, commit
+}
+
+// complete proof for n = (2a^e+1)(2b+1); everything honest for the true factors except pprimeIsPrime
+// VerifForgeFreeMultipliers builds a ValidKeyProof for n = (2a^e+1)(2b+1) in which everything is honest for the true factors
+// (the prover commits to the true (P-1)/2 = a^e, composite for e > 1) except the proof that this number is prime: with free,
+// every expStepB step of its two exponentiation chains is given a multiplier of the prover's choice (all 1 for the chain that
+// has to end in +1; p'-1 once and 1 elsewhere for the one that has to end in -1) instead of the committed base power.
+// All commitments are nonzero.
+func VerifForgeFreeMultipliers(a *big.Int, e int, b *big.Int, bases []*big.Int, free bool) (ValidKeyProof, bool) {
+	one := big.NewInt(1)
+	Pp, Qp := verifPow(a, e), b
+	P := new(big.Int).Add(new(big.Int).Lsh(Pp, 1), one)
+	Q := new(big.Int).Add(new(big.Int).Lsh(Qp, 1), one)
+	n := new(big.Int).Mul(P, Q)
+	s := NewValidKeyProofStructure(n, bases)
+	GroupPrime := findSafePrime(n.BitLen() + 2*rangeProofEpsilon + 10)
+	g, ok := zkproof.BuildGroup(GroupPrime)
+	if !ok {
+		panic("group")
+	}
+
+	list, PprimeSecret := s.pprime.commitmentsFromSecrets(g, nil, Pp) // the TRUE (P-1)/2 = a^e
+	list, QprimeSecret := s.qprime.commitmentsFromSecrets(g, list, Qp)
+	list, PSecret := s.p.commitmentsFromSecrets(g, list, P)
+	list, QSecret := s.q.commitmentsFromSecrets(g, list, Q)
+	PQNRel := newSecret(g, "pqnrel", new(big.Int).Mod(new(big.Int).Mul(PSecret.hider.secretv, QSecret.secretv.secretv), g.Order))
+	bases2 := zkproof.NewBaseMerge(&g, &PSecret, &QSecret, &PprimeSecret, &QprimeSecret)
+	secrets := zkproof.NewSecretMerge(&PSecret, &QSecret, &PprimeSecret, &QprimeSecret, &PQNRel)
+
+	list = append(list, GroupPrime, s.n)
+	list = s.pPprimeRel.CommitmentsFromSecrets(g, list, &bases2, &secrets)
+	list = s.qQprimeRel.CommitmentsFromSecrets(g, list, &bases2, &secrets)
+	list = s.pQNRel.CommitmentsFromSecrets(g, list, &bases2, &secrets)
+	list, PprimeIsPrimeCommit := kpForgedPrimeCommit(&s.pprimeIsPrime, g, list, &bases2, &secrets, free) // forged
+	list, QprimeIsPrimeCommit := s.qprimeIsPrime.commitmentsFromSecrets(g, list, &bases2, &secrets)      // honest (b is prime)
+	tail, BasesValidCommit := s.basesValid.commitmentsFromSecrets(g, nil, P, Q)                          // honest
+
+	phi := new(big.Int).Lsh(new(big.Int).Mul(Pp, Qp), 2)
+	var challenge *big.Int
+	var qspp QuasiSafePrimeProductProof
+	found := false
+	for try := 0; try < 200 && !found; try++ {
+		mid, qc := quasiSafePrimeProductBuildCommitments(nil, Pp, Qp)
+		challenge = common.HashCommit(append(append(append([]*big.Int{}, list...), mid...), tail...), false)
+		qspp.ASPPproof, found = verifASPP(a, e, b, n, challenge, qc.asppCommit)
+	}
+	if !found {
+		return ValidKeyProof{}, false
+	}
+	qspp.SFproof = squareFreeBuildProof(n, phi, challenge, big.NewInt(0))
+	qspp.PPPproof = primePowerProductBuildProof(P, Q, challenge, big.NewInt(1))
+	qspp.DPPproof = disjointPrimeProductBuildProof(P, Q, challenge, big.NewInt(2))
+
+	return ValidKeyProof{
+		GroupPrime:         GroupPrime,
+		Challenge:          challenge,
+		PQNRel:             PQNRel.buildProof(g, challenge),
+		PProof:             s.p.buildProof(g, challenge, PSecret),
+		QProof:             s.q.buildProof(g, challenge, QSecret),
+		PprimeProof:        s.pprime.buildProof(g, challenge, PprimeSecret),
+		QprimeProof:        s.qprime.buildProof(g, challenge, QprimeSecret),
+		PprimeIsPrimeProof: s.pprimeIsPrime.buildProof(g, challenge, PprimeIsPrimeCommit, &secrets), // the package's own buildProof
+		QprimeIsPrimeProof: s.qprimeIsPrime.buildProof(g, challenge, QprimeIsPrimeCommit, &secrets),
+		QSPPproof:          qspp,
+		BasesValidProof:    s.basesValid.buildProof(g, challenge, BasesValidCommit),
+	}, true
+}
